@@ -132,6 +132,13 @@ def op_reorder(st, hid_new, hid):
     return _info(st, hid_new)
 
 
+def op_relayout(st, hid_new, hid, seed):
+    new, n = mutate.relayout(st.h[hid], random.Random(f"relayout:{seed}"))
+    st.h[hid_new] = new
+    st.meta[hid_new] = {"origin": ("relayout", hid)}
+    return {"changed": n, **_info(st, hid_new)}
+
+
 def op_sub(st, hid_new, hid, index):
     nodes = [v for v in walker.pytato_nodes(st.h[hid])]
     v = nodes[index % len(nodes)]
